@@ -168,7 +168,7 @@ class Registry:
             for n in ast.walk(func.node):
                 if isinstance(n, ast.Call) and isinstance(n.func, ast.Name) and n.func.id == func.name:
                     r = True
-            self._rec[func.name] = r or 'uninterpreted' in func.decorators
+            self._rec[func.name] = r or 'uninterpreted' in func.decorators or 'ghost' in func.decorators
         return self._rec[func.name]
 
     def return_kind(self, func):
@@ -178,7 +178,7 @@ class Registry:
         raise OutOfSubset('recursive spec function %s needs a return annotation' % func.name)
 
     def unfold_limit(self, func):
-        if 'uninterpreted' in func.decorators:
+        if 'uninterpreted' in func.decorators or 'ghost' in func.decorators:
             return 0
         for d in func.decorators:
             if d.startswith('unfold('):
